@@ -27,6 +27,7 @@ Theorem C01_copy_result :
   forall (g : graph) (c : cfg) (d0 : list node) (rank : node -> nat),
     (forall n x, In x (succ' g n) -> rank x < rank n) ->
     forall (tr : list event) (st : state) (fuel : nat),
+    c_xroots c = [] ->   (* Copy / CopyGraph: one root *)
     closed_nodes g d0 -> mt_consistent g -> rank (c_root c) < fuel ->
     accepts g c d0 tr = Some st -> returned st = Some true ->
     forall n, has g (dst st) n = has g (copy_result g d0 fuel (c_root c)) n.
@@ -113,6 +114,7 @@ Theorem C01_copy_result_any_callbacks :
   forall (cs : cbset) (g : graph) (c : cfg) (d0 : list node) (rank : node -> nat),
     (forall n x, In x (succ' g n) -> rank x < rank n) ->
     forall (tr : list event) (st : state) (full : list event) (fuel : nat),
+    c_xroots c = [] ->
     closed_nodes g d0 -> mt_consistent g -> rank (c_root c) < fuel ->
     accepts_opt cs g c d0 tr = Some (st, full) -> returned st = Some true ->
     forall n, has g (dst st) n = has g (copy_result g d0 fuel (c_root c)) n.
